@@ -1692,6 +1692,11 @@ class Terminal(Widget):
             if self.main_loop is None:
                 self.feed()
 
+        elif self.term is not None and (self.width, self.height) != tuple(size):
+            # the program is gone, but what it left on the screen still has to fit the container
+            self.width, self.height = size
+            self.term.resize(self.width, self.height)
+
         return self.term
 
     def add_watch(self) -> None:
